@@ -143,6 +143,17 @@ NOTES = {
     'C18-stale-matching-state': 'first run: MISSED. Added solver-reuse history cases to r_C18 and the static obligation `state_independent_of_previous_calls` (engine F, definite initialisation of instance state)',
     'C08-lanczos-real-dtype': 'first run: MISSED by C08. Added the dtype lattice (`no narrowing store`) to engine Z for the Krylov iterations and real-valued states to r_C08/r_C09/r_C10',
     'C07-gauge-right-block-conj': 'would have been missed with gauge cases L<=6; r_C07 now has L=7 (thorough: 8) for every rotated pair',
+    'C04-blocks-state-dtype': 'round 2, first run: MISSED (proof of the fold lost, no failing input). r_C04 now draws the entry kind per object (real state with complex operator); engine Z got shape+kind contracts for operation.py (`vt/zops.py`) that refute the narrowing store',
+    'C04-vdot-sector-shortcut': 'round 2, first run: MISSED. r_C04 now has bra/ket pairs in the same physical sector with shifted bond charges (non-zero leading charge)',
+    'C10-twosite-final-normalize': 'round 2, first run: MISSED (two-site DMRG was only run with tol_split = 0). r_C10 now has tol_split > 0 cases; this also surfaced finding F8',
+    'C13-trunc-tie-ge': 'round 2, first run: MISSED by C13 (proof of the truncation rule lost, no failing input in r_C13). r_C13 now shares the exact dyadic tie / exact zero spectra of r_C12',
+    'C16-edge-keeps-caller-nids': 'round 2, first run: MISSED. The harness builds parallel edges from one caller-owned [from, to] list; engine F has `no_capture` obligations for the edge/node constructors',
+    'C16-simplify-isclose-coeffs': 'round 2, first run: MISSED. r_C16 now has operator sums that differ by 2^-30 relative / 2^-40 absolute (exactly representable)',
+    'C03-mps-qd-aliased': 'round 2, first run: MISSED by C03. r_C03 now overwrites each result in place and repeats the operation on the operands',
+    'C06-ftype-alias-missing-comma': "round 2, first run: MISSED. r_C06 and engine S now use the long spellings ('create', 'creation') accepted by the pinned source",
+    'C11-tiny-block-skip': 'round 2, first run: MISSED (product tolerance was absolute for small matrices). r_C11 checks Q R = A relative to |A| and scales matrices / single blocks by 1e-18 ... 1e12',
+    'C14-arnoldi-early-exit-axis': 'round 2, first run: CHECKER-BROKEN (a refuted obligation is assumed afterwards, which made the path condition contradictory and the canary provable). Canary policy corrected; now refuted `sizes_consistent` + bounded',
+    'C14-lanczos-relative-breakdown': 'round 2, first run: MISSED. r_C14 has maps with exact exhaustion (zero map, integer diagonal with null start vector) and a `finite` clause',
     'C06-zero-coeff-filter-tolerance': 'first run: MISSED. r_C06 now includes parameter points scaled by 1e-9 ... 1e+12 (every parameter value is legal)',
 }
 
